@@ -24,6 +24,7 @@ type Job struct {
 	Extra   []string
 	Env     []string
 	Timeout time.Duration
+	Procs   int // GOMAXPROCS of the process (0: derived from From)
 
 	// outputs
 	Results  []*kernel.Result
@@ -45,7 +46,16 @@ func (e *Env) runJob(j *Job) {
 	// serialised by the scheduler, and with one P the per-P caches of
 	// sync.Pool (which a changed library might introduce) behave the same in
 	// every process.  The workers give the parallelism.
-	cmd.Env = append(append(os.Environ(), "GOMAXPROCS=1", fmt.Sprintf("VERIF_DEPTH=%d", e.Depth)), j.Env...)
+	// The number of Ps is a configuration knob of the process (a changed
+	// library may size worker pools or split tables by it): mostly 1, so
+	// that per-P caches behave identically everywhere, sometimes 2 or 6.
+	// Every world is single-threaded or serialised, so the unchanged
+	// library gives the same histories whatever the value.
+	procs := j.Procs
+	if procs == 0 {
+		procs = ProcsFor(j.From)
+	}
+	cmd.Env = append(append(os.Environ(), fmt.Sprintf("GOMAXPROCS=%d", procs), fmt.Sprintf("VERIF_DEPTH=%d", e.Depth)), j.Env...)
 	var stdout, stderr bytes.Buffer
 	cmd.Stdout, cmd.Stderr = &stdout, &stderr
 	t0 := time.Now()
@@ -90,6 +100,10 @@ func (e *Env) runJob(j *Job) {
 		j.Results = append(j.Results, &r)
 	}
 }
+
+// ProcsFor is the GOMAXPROCS value of the process that executes the job
+// starting at run index from.
+func ProcsFor(from int) int { return []int{1, 1, 2, 6}[(from/7)%4] }
 
 // RunJobs runs all jobs on e.Workers workers.
 func (e *Env) RunJobs(jobs []*Job) {
